@@ -72,7 +72,7 @@ func RunRegHistory(ops []string, rot int, objNames []string) {
 		}
 	}
 	newest := map[string]string{}
-	srcs := g.Sources()
+	srcs := sortedSources(g) // (Sources() is in map order: the rotation must mean the same source in every process)
 	var srcList []lint.LintSource
 	for _, s := range srcs {
 		srcList = append(srcList, s)
